@@ -151,7 +151,11 @@ func (c *RecvC[T]) fire() {
 	if p, i := partner(k, true, s.cur); p != nil {
 		// rendezvous: take the value of the parked sender and complete it
 		v := p.pending.cases[i].offered()
-		c.val, c.ok = v.(T), true
+		// (a nil value of an interface element type arrives as a nil interface{})
+		if v != nil {
+			c.val = v.(T)
+		}
+		c.ok = true
 		rendezvous(k, p, s.cur)
 		p.pending.cases[i].deliver(p, nil, true)
 		p.fired = i
